@@ -25,7 +25,7 @@ CLAIMS.update({
         technique='Lean 4 proof by induction over the label with an explicit position counter + differential correspondence with a custom StringClass',
         design='§6 C02'),
     'C09': dict(
-        text='Lean 4 theorems: the generated Bidi_Class table (searched by the modelled binary search, default L) equals UnicodeData 16.0.0 for every code point (kernel-checked step-function comparison with an independent parse); the one-pass scan with prev/nsm/en/an flags accepts EXACTLY the class sequences that satisfy RFC 5893 conditions 1-6 and have no NSM followed by a non-NSM (scan_exact, all lengths); labels without R/AL/AN are accepted unchanged; the string is never modified; the rule is sound w.r.t. the RFC. The full-strength statement is false of the code (known finding bidi-interior-nsm, exactly characterised; witness proved in Lean). Correspondence: all class sequences up to length 4 (thorough 5) over 12 classes, every class in 7 placements, bidi_class over all code points.',
+        text='Lean 4 theorems: the generated Bidi_Class table (searched by the modelled binary search, default L) equals UnicodeData 16.0.0 for every code point (kernel-checked step-function comparison with an independent parse); the one-pass scan with prev/nsm/en/an flags accepts EXACTLY the class sequences that satisfy RFC 5893 conditions 1-6 and have no NSM followed by a non-NSM (scan_exact, all lengths); labels without R/AL/AN are accepted unchanged; the string is never modified; the rule is sound w.r.t. the RFC. The full-strength statement is false of the code (known finding bidi-interior-nsm, exactly characterised; witness proved in Lean). Correspondence: all class sequences up to length 4 (thorough 5) over 12 classes, every class in 7 placements, bidi_class over all code points; has_rtl and the rule on the labels [c], [a,c], [c-1,c] and [c+1,c] for EVERY code point c (state carried from one table look-up to the next shows up next to the neighbour code point). The class sets of the four functions are re-read from bidi.rs on every run and proved to be the sets the model scans with (SrcTie).',
         note='Trusted: Lean kernel; RFC 5893 transcription; tools/ucd_spec.py; model of bidi.rs validated by exhaustive small-scope correspondence. Known finding: interior NSM rejected (unit tests of the repository assert it).',
         technique='Lean 4 proof (automaton invariant by induction over the suffix; kernel-checked table equality) + exhaustive class-sequence correspondence',
         design='§6 C09'),
@@ -35,12 +35,12 @@ CLAIMS.update({
         technique='Lean 4 proof (find/slice lemmas over UTF-8 byte offsets + kernel-checked table facts) + differential correspondence',
         design='§6 C10'),
     'C11': dict(
-        text='Lean 4 theorems: the generated width table equals the <wide>/<narrow> decomposition data of UnicodeData 16.0.0 for every code point (kernel-checked against an independent parse); width_mapping_rule s = s.map widthMap for every string (per character, position independent, other compatibility characters untouched); idempotent; every table value is a scalar so the typed error is unreachable; no panic. Correspondence: get_decomposition_mapping over all code points, every mapped code point in 18 contexts, all strings <= 3 (thorough 5) over representatives.',
+        text='Lean 4 theorems: the generated width table equals the <wide>/<narrow> decomposition data of UnicodeData 16.0.0 for every code point (kernel-checked against an independent parse); width_mapping_rule s = s.map widthMap for every string (per character, position independent, other compatibility characters untouched); idempotent; every table value is a scalar so the typed error is unreachable; no panic. Correspondence: get_decomposition_mapping over all code points, every mapped code point in 18 contexts, all strings <= 3 (thorough 5) over representatives, and the rule on [U+FF21, c-1, c] for EVERY code point c.',
         note='Trusted: Lean kernel; tools/ucd_spec.py; model of usernames.rs::width_mapping_rule validated by correspondence.',
         technique='Lean 4 proof (find/slice lemmas + kernel-checked table equality) + differential correspondence',
         design='§6 C11'),
     'C12': dict(
-        text='Lean 4 theorems: the generated Zs table is General_Category=Zs of Unicode 16.0.0 for every code point; Nickname trim_spaces s = collapse(strip(map Zs->U+0020 s)) for EVERY string (the byte offset returned by the scan is always a character boundary, so no panic); non-space characters are kept in order; the result has no leading/trailing/double/non-ASCII space; idempotent; OpaqueString mapping = map(non-ASCII Zs -> U+0020), preserves everything else, idempotent. Correspondence: all strings <= 5 (thorough 6) over {4 spaces} x {1-4 byte characters} for both rules and find_disallowed_space, all 17 Zs in 9 placements.',
+        text='Lean 4 theorems: the generated Zs table is General_Category=Zs of Unicode 16.0.0 for every code point; Nickname trim_spaces s = collapse(strip(map Zs->U+0020 s)) for EVERY string (the byte offset returned by the scan is always a character boundary, so no panic); non-space characters are kept in order; the result has no leading/trailing/double/non-ASCII space; idempotent; OpaqueString mapping = map(non-ASCII Zs -> U+0020), preserves everything else, idempotent. Correspondence: all strings <= 5 (thorough 6) over {4 spaces} x {1-4 byte characters} for both rules and find_disallowed_space, all 17 Zs in 9 placements, and EVERY scalar c after a non-ASCII space, between two letters and before a trailing run of spaces.',
         note='Trusted: Lean kernel; tools/ucd_spec.py; model of nicknames.rs/passwords.rs validated by exhaustive small-scope correspondence.',
         technique='Lean 4 proof (scan invariant over byte offsets, reference single-pass function, induction) + exhaustive small-scope correspondence',
         design='§6 C12'),
@@ -73,7 +73,7 @@ CLAIMS.update({
         technique='Lean 4 proof (composition + C13 stabilize theorems) + differential correspondence with orbit oracle',
         design='§6 C06'),
     'C07': dict(
-        text='Lean 4 theorems for all four profiles: compare(a,b) = first operand\'s error, else second\'s, else equality of canonical forms (enforce; for Nickname the comparison rules with lowercase mapping iterated to stability); true iff both accepted with the same canonical string; reflexive, symmetric, transitive on accepted strings; equals enforce(a) == enforce(b) for usernames and passwords; the omitted empty check in the nickname comparison rules is unobservable. Correspondence: all ordered pairs within families of variants of one name (case, width, spacing, NFC/NFD/NFKC, titlecase, invalid, empty) and sampled pairs; laws re-checked on the implementation\'s own answers.',
+        text='Lean 4 theorems for all four profiles: compare(a,b) = first operand\'s error, else second\'s, else equality of canonical forms (enforce; for Nickname the comparison rules with lowercase mapping iterated to stability); true iff both accepted with the same canonical string; reflexive, symmetric, transitive on accepted strings; equals enforce(a) == enforce(b) for usernames and passwords; the omitted empty check in the nickname comparison rules is unobservable. Correspondence: all ordered pairs within families of variants of one name (case, width, spacing, NFC/NFD/NFKC, titlecase, invalid, empty) and sampled pairs, families built from every composition pair whose first element is a lowercase letter, final-sigma contexts, operands that are rejected only by a later application of the rules; laws re-checked on the implementation\'s own answers.',
         note='Trusted: Lean kernel; C04-C06/C10 for the canonical forms; carries the C09 known finding for username operands (listed for C07).',
         technique='Lean 4 proof (case analysis on results; C13) + pair/triple correspondence over variant families',
         design='§6 C07'),
@@ -91,7 +91,7 @@ CLAIMS.update({
         technique='Lean 4 proof (closure and idempotence of the NFC model by induction over its state machine + kernel bitmap / search-tree facts over the regenerated tables) + exhaustive single-code-point sweep',
         design='§6 C08'),
     'C17': dict(
-        text='Lean 4 theorems about a model of the registry CSV parser (splitn, the two anchored regexes, from_str_radix, the line iterator): every well-formed row rendered with 1-8 upper-case hex digits, any of the 7 names or 49 ordered pairs and ANY description (commas included) parses to exactly that row (completeness); anything accepted has exactly that form — hex digits only (no sign), value <= U+10FFFF, one of the names or two joined by white space-or-white space, description verbatim (soundness); fewer than two commas is an error; the header is skipped, items are in file order and an error carries its 1-based line number. Correspondence: rendered random rows and EVERY single-character deletion/replacement/insertion of seed rows through PrecisDerivedProperty::from_str, generated files through CsvLineParser::from_path.',
+        text='Lean 4 theorems about a model of the registry CSV parser (splitn, the two anchored regexes, from_str_radix, the line iterator): every well-formed row rendered with 1-8 upper-case hex digits, any of the 7 names or 49 ordered pairs and ANY description (commas included) parses to exactly that row (completeness); anything accepted has exactly that form — hex digits only (no sign), value <= U+10FFFF, one of the names or two joined by white space-or-white space, description verbatim (soundness); fewer than two commas is an error; the header is skipped, items are in file order and an error carries its 1-based line number. Correspondence: rendered random rows and EVERY single-character deletion/replacement/insertion of seed rows through PrecisDerivedProperty::from_str, generated files through CsvLineParser::from_path incl. rows of 4 KiB to 128 KiB, 9-20 digit code point fields and a last line without terminator.',
         note='Trusted: Lean kernel; regex crate, from_str_radix, ucd_parse::Codepoint, read_line modelled by their documented behaviour (validated by the correspondence).',
         technique='Lean 4 proof (round-trip and soundness by induction on digit strings / list splitting) + exhaustive single-edit corruption correspondence',
         design='§6 C17'),
@@ -99,7 +99,7 @@ CLAIMS.update({
 
 CLAIMS.update({
     'C16': dict(
-        text='Lean 4 theorem about an abstract protocol of the library: lazily initialised cells (Uninit/Running/Init) holding data-free profile values, calls through the static API (which first force the cell), fresh or long-lived instances, arguments as borrowed/owned/Cow: for EVERY interleaving of initialisation steps and calls of any number of threads and every prior history, a completed call returns the pure function of its arguments; the API flavours and argument forms agree. The runtime part the model cannot exhibit (memory model, std::sync::Once) is explored: fresh processes in which 16 threads race the very first static calls, every input through all {fresh, long-lived, static} x {&str, String, Cow} combinations three times in shuffled order, all compared with the model; plus structural checks on every run (size_of of the four profiles and two classes is 0; no static mut / Cell / atomics / thread_local / Mutex / unsafe in the crates\' src).',
+        text='Lean 4 theorem about an abstract protocol of the library: lazily initialised cells (Uninit/Running/Init) holding data-free profile values, calls through the static API (which first force the cell), fresh or long-lived instances, arguments as borrowed/owned/Cow: for EVERY interleaving of initialisation steps and calls of any number of threads and every prior history, a completed call returns the pure function of its arguments; the API flavours and argument forms agree. The runtime part the model cannot exhibit (memory model, std::sync::Once) is explored: fresh processes in which 16 threads race the very first static calls, every input through all {fresh, long-lived, static} x {&str, String, Cow} combinations three times in shuffled order, all compared with the model; plus structural checks on every run (size_of of the four profiles and two classes is 0; no static mut / Cell / atomics / thread_local / Mutex / unsafe in the crates\' src: a hit is reported as a broken assumption of the model with no-failing-input-found unless the behavioural probes exhibit a failing history). Behavioural probes added after missed seeded changes: every rule and profile call of EVERY property run is evaluated through a second API form (borrowed/owned/Cow, fresh/long-lived/static) and must give the same content; about 2000 inputs through all twelve combinations; history probes (a call with s, then with a one-position variant of s, for labels of many lengths); a 16-thread stress with different colliding inputs in flight followed by a sequential re-evaluation. Protocol theorems for the lazy cell: initialised at most once, never changes afterwards, a static call completes only on an initialised cell.',
         note='Partial by nature: proof of the abstract protocol + exploration of real schedules. Trusted: that the Rust operations read no state beyond their arguments is established by the structural scan and the behavioural comparison, not by proof.',
         technique='Lean 4 proof by induction on executions of an abstract lazy-initialisation protocol + schedule/history exploration against the model',
         design='§6 C16'),
